@@ -9,6 +9,10 @@ exception Oracle_miss of string
 
 let zc_table : (string, string option) Hashtbl.t = Hashtbl.create 64
 let zd_table : (string, string option) Hashtbl.t = Hashtbl.create 64
+(* kernel path (see below): eligibility, size and compressor table of the current case *)
+let k_ok = ref true
+let k_size = ref 0
+let k_zc : (string, string option) Hashtbl.t = Hashtbl.create 64
 
 let zc (b : bytes) : bytes option =
   let k = string_of_bytes b in
@@ -44,7 +48,12 @@ let parse_tail (c : cursor) : id list =
         for _ = 1 to k do
           let b = raw_of_hex (next c) in
           let t = next c in
-          Hashtbl.replace zc_table b (if t = "!" then None else Some (raw_of_hex t))
+          let v = if t = "!" then None else Some (raw_of_hex t) in
+          Hashtbl.replace zc_table b v;
+          if !k_ok then begin
+            k_size := !k_size + 5 * (String.length b + (match v with Some x -> String.length x | None -> 0));
+            Hashtbl.replace k_zc b v
+          end
         done
     | "ZD" ->
         let k = next_int c in
@@ -154,6 +163,93 @@ let parse_join (c : cursor) : wop =
   in
   WJoin ({ cf_id = i; cf_cluster = cl; cf_fd = fdc; cf_grace = kv_grace; cf_pred = p; cf_has_cb = has_cb }, initial)
 
+
+(* ---------- kernel path: emit a case as Gallina so that coqc re-evaluates World.run by vm_compute ---------- *)
+let k_dir = Sys.getenv_opt "VERIF_KERNEL_DIR"
+let k_max = match Sys.getenv_opt "VERIF_KERNEL_K" with Some s -> (try int_of_string s with _ -> 0) | None -> 0
+let k_emitted = ref 0
+let k_ops : string list ref = ref []
+
+let cq_n (x : n) : string = string_of_n x
+let cq_z (x : z) : string = "(" ^ string_of_cz x ^ ")%Z"
+let cq_nat (i : int) : string = string_of_int i ^ "%nat"
+let cq_raw (s : string) : string =
+  let b = Buffer.create (String.length s * 5 + 2) in
+  Buffer.add_char b '[';
+  String.iteri (fun i ch -> if i > 0 then Buffer.add_string b "; "; Buffer.add_string b (Printf.sprintf "x%02x" (Char.code ch))) s;
+  Buffer.add_char b ']';
+  Buffer.contents b
+let cq_bytes (x : bytes) : string = cq_raw (string_of_bytes x)
+let cq_list (f : 'a -> string) (l : 'a list) : string = "[" ^ String.concat "; " (List.map f l) ^ "]"
+let cq_addr (a : addr) : string =
+  match a with
+  | V4 (ip, port) -> Printf.sprintf "(V4 %s %s)" (cq_n ip) (cq_n port)
+  | V6 (ip, port) -> Printf.sprintf "(V6 %s %s)" (cq_n ip) (cq_n port)
+let cq_id (i : id) : string = Printf.sprintf "(mkId %s %s %s)" (cq_bytes i.i_name) (cq_n i.i_gen) (cq_addr i.i_addr)
+let cq_pred (p : lpred) : string =
+  match p with
+  | PNone -> "PNone"
+  | PHasEntry k -> Printf.sprintf "(PHasEntry %s)" (cq_bytes k)
+  | PVisible k -> Printf.sprintf "(PVisible %s)" (cq_bytes k)
+  | PValueEq (k, v) -> Printf.sprintf "(PValueEq %s %s)" (cq_bytes k) (cq_bytes v)
+  | PMaxEven -> "PMaxEven"
+let cq_bool b = if b then "true" else "false"
+let cq_cfg (c : config) : string =
+  let f = c.cf_fd in
+  Printf.sprintf "(mkCfg %s %s (mkFdCfg %s %s %s %s %s %s %s) %s %s %s)" (cq_id c.cf_id) (cq_bytes c.cf_cluster)
+    (cq_z f.phi_num) (cq_z f.phi_den) (cq_nat (int_of_nat f.window_size)) (cq_z f.max_interval) (cq_z f.initial_interval)
+    (cq_z f.dead_grace) (cq_z f.half_grace) (cq_z c.cf_grace) (cq_pred c.cf_pred) (cq_bool c.cf_has_cb)
+let cq_mstatus (m : mstatus) = match m with MSet -> "MSet" | MDel -> "MDel" | MTtl -> "MTtl"
+let cq_status (s : status) =
+  match s with SSet -> "SSet" | SDel t -> Printf.sprintf "(SDel %s)" (cq_z t) | STtl t -> Printf.sprintf "(STtl %s)" (cq_z t)
+let cq_digest (d : digest) : string =
+  cq_list (fun (i, g) -> Printf.sprintf "(%s, mkNDg %s %s %s)" (cq_id i) (cq_n g.g_hb) (cq_n g.g_gc) (cq_n g.g_max)) d
+let cq_delta (x : delta) : string =
+  Printf.sprintf "(mkDelta %s %s)"
+    (cq_list
+       (fun nd ->
+         Printf.sprintf "(mkND %s %s %s %s %s)" (cq_id nd.d_id) (cq_n nd.d_from) (cq_n nd.d_gc)
+           (cq_list (fun m -> Printf.sprintf "(mkKvm %s %s %s %s)" (cq_bytes m.m_key) (cq_bytes m.m_val) (cq_n m.m_ver) (cq_mstatus m.m_st)) nd.d_kvs)
+           (cq_n nd.d_max))
+       x.nds)
+    (cq_n x.dlen)
+let cq_message (m : message) : string =
+  match m with
+  | Syn (cl, d) -> Printf.sprintf "(Syn %s %s)" (cq_bytes cl) (cq_digest d)
+  | SynAck (d, x) -> Printf.sprintf "(SynAck %s %s)" (cq_digest d) (cq_delta x)
+  | Ack x -> Printf.sprintf "(Ack %s)" (cq_delta x)
+  | BadCluster -> "BadCluster"
+let cq_wop (o : wop) : string =
+  match o with
+  | WJoin (cfg, init) -> Printf.sprintf "WJoin %s %s" (cq_cfg cfg) (cq_list (fun (k, v) -> Printf.sprintf "(%s, %s)" (cq_bytes k) (cq_bytes v)) init)
+  | WSet (i, k, v) -> Printf.sprintf "WSet %s %s %s" (cq_nat (int_of_nat i)) (cq_bytes k) (cq_bytes v)
+  | WSetTtl (i, k, v) -> Printf.sprintf "WSetTtl %s %s %s" (cq_nat (int_of_nat i)) (cq_bytes k) (cq_bytes v)
+  | WDel (i, k) -> Printf.sprintf "WDel %s %s" (cq_nat (int_of_nat i)) (cq_bytes k)
+  | WDelTtl (i, k) -> Printf.sprintf "WDelTtl %s %s" (cq_nat (int_of_nat i)) (cq_bytes k)
+  | WGc i -> Printf.sprintf "WGc %s" (cq_nat (int_of_nat i))
+  | WHeartbeat i -> Printf.sprintf "WHeartbeat %s" (cq_nat (int_of_nat i))
+  | WTick dt -> Printf.sprintf "WTick %s" (cq_z dt)
+  | WProc (i, m, ord) -> Printf.sprintf "WProc %s %s %s" (cq_nat (int_of_nat i)) (cq_message m) (cq_list cq_id ord)
+  | WEval (i, o) ->
+      Printf.sprintf "WEval %s %s" (cq_nat (int_of_nat i))
+        (match o with Some l -> Printf.sprintf "(Some %s)" (cq_list cq_id l) | None -> "None")
+  | WCatchup (i, m, kvs, mx, gc) ->
+      Printf.sprintf "WCatchup %s %s %s %s %s" (cq_nat (int_of_nat i)) (cq_id m)
+        (cq_list (fun (k, v) -> Printf.sprintf "(%s, mkVV %s %s %s)" (cq_bytes k) (cq_bytes v.v_val) (cq_n v.v_ver) (cq_status v.v_st)) kvs)
+        (cq_n mx) (cq_n gc)
+
+let k_record (o : wop) : unit =
+  if k_dir <> None && !k_emitted < k_max && !k_ok then begin
+    if !k_size > 120_000 then k_ok := false
+    else begin
+      let s = cq_wop o in
+      k_size := !k_size + String.length s;
+      k_ops := s :: !k_ops
+    end
+  end
+
+let k_reset () = k_ops := []; k_ok := true; k_size := 0; Hashtbl.reset k_zc
+
 (* ---------- the interpreter ---------- *)
 type outcome = Obs of string | Skip
 
@@ -204,8 +300,8 @@ let node_at (i : int) : node =
 
 let obs_after_step (i : int) (r : (world * obs) result) ~(with_reply : bool) : string =
   match r with
-  | Panic -> "PANIC"
-  | Err -> "MODEL-ERR illegal-order"
+  | Panic -> k_ok := false; "PANIC"
+  | Err -> k_ok := false; "MODEL-ERR illegal-order"
   | Ok (w, o) ->
       world := w;
       dispatch_events i o.o_events;
@@ -229,57 +325,59 @@ let parse_catchup_kvs (c : cursor) (now : z) : (bytes * vv) list =
       let st = mstatus_of_int (next_int c) in
       (k, { v_val = v; v_ver = ver; v_st = into_status st now }))
 
+let kstep (o : wop) = k_record o; step zc !world o
+
 let exec (c : cursor) : outcome =
   match next c with
   | "JOIN" ->
       let op = parse_join c in
       let i = List.length !world.w_nodes in
-      Obs (obs_after_step i (step zc !world op) ~with_reply:false)
+      Obs (obs_after_step i (kstep op) ~with_reply:false)
   | "SET" ->
       let i = next_int c in
       let k = next_hex c in
       let v = next_hex c in
-      Obs (obs_after_step i (step zc !world (WSet (nat_of_int i, k, v))) ~with_reply:false)
+      Obs (obs_after_step i (kstep (WSet (nat_of_int i, k, v))) ~with_reply:false)
   | "SETTTL" ->
       let i = next_int c in
       let k = next_hex c in
       let v = next_hex c in
-      Obs (obs_after_step i (step zc !world (WSetTtl (nat_of_int i, k, v))) ~with_reply:false)
+      Obs (obs_after_step i (kstep (WSetTtl (nat_of_int i, k, v))) ~with_reply:false)
   | "DEL" ->
       let i = next_int c in
       let k = next_hex c in
-      Obs (obs_after_step i (step zc !world (WDel (nat_of_int i, k))) ~with_reply:false)
+      Obs (obs_after_step i (kstep (WDel (nat_of_int i, k))) ~with_reply:false)
   | "DELTTL" ->
       let i = next_int c in
       let k = next_hex c in
-      Obs (obs_after_step i (step zc !world (WDelTtl (nat_of_int i, k))) ~with_reply:false)
+      Obs (obs_after_step i (kstep (WDelTtl (nat_of_int i, k))) ~with_reply:false)
   | "GC" ->
       let i = next_int c in
-      Obs (obs_after_step i (step zc !world (WGc (nat_of_int i))) ~with_reply:false)
+      Obs (obs_after_step i (kstep (WGc (nat_of_int i))) ~with_reply:false)
   | "HB" ->
       let i = next_int c in
-      Obs (obs_after_step i (step zc !world (WHeartbeat (nat_of_int i))) ~with_reply:false)
+      Obs (obs_after_step i (kstep (WHeartbeat (nat_of_int i))) ~with_reply:false)
   | "TICK" ->
       let dt = next_z c in
-      (match step zc !world (WTick dt) with Ok (w, _) -> world := w | _ -> ());
+      (match kstep (WTick dt) with Ok (w, _) -> world := w | _ -> k_ok := false);
       Obs ("now " ^ string_of_cz !world.w_now)
   | "PROC" ->
       let i = next_int c in
       let m = parse_message c in
       let ord = parse_tail c in
-      Obs (obs_after_step i (step zc !world (WProc (nat_of_int i, m, ord))) ~with_reply:true)
+      Obs (obs_after_step i (kstep (WProc (nat_of_int i, m, ord))) ~with_reply:true)
   | "EVAL" ->
       let i = next_int c in
       let k = next_int c in
       let live = repeat k (fun () -> next_id c) in
-      Obs (obs_after_step i (step zc !world (WEval (nat_of_int i, Some live))) ~with_reply:false)
+      Obs (obs_after_step i (kstep (WEval (nat_of_int i, Some live))) ~with_reply:false)
   | "CATCHUP" ->
       let i = next_int c in
       let m = next_id c in
       let mx = next_n c in
       let gc = next_n c in
       let kvs = parse_catchup_kvs c !world.w_now in
-      Obs (obs_after_step i (step zc !world (WCatchup (nat_of_int i, m, kvs, mx, gc))) ~with_reply:false)
+      Obs (obs_after_step i (kstep (WCatchup (nat_of_int i, m, kvs, mx, gc))) ~with_reply:false)
   | "SYN" ->
       let i = next_int c in
       Obs (dump_message (create_syn_message !world.w_now (node_at i)) ^ " | " ^ dump_node !world.w_now (node_at i))
@@ -434,6 +532,34 @@ let exec (c : cursor) : outcome =
       | Panic -> Obs "PANIC")
   | t -> fail "unknown op %S" t
 
+
+let k_flush (skipping : bool) : unit =
+  (match k_dir with
+   | Some dir when !k_ok && (not skipping) && !k_ops <> [] && !k_emitted < k_max ->
+       let name = Printf.sprintf "k_%d" !k_emitted in
+       incr k_emitted;
+       let oc = open_out (Filename.concat dir (name ^ ".v")) in
+       output_string oc "From ChitchatModel Require Import Base SMap Ids Bytes Params NodeState Stream DeltaWire Message Cluster FD Chitchat World.\nLocal Open Scope N_scope.\n";
+       output_string oc "Definition tab : list (bytes * option bytes) :=\n  [";
+       let first = ref true in
+       Hashtbl.iter
+         (fun b v ->
+           if not !first then output_string oc ";\n   ";
+           first := false;
+           output_string oc (Printf.sprintf "(%s, %s)" (cq_raw b) (match v with Some x -> "Some " ^ cq_raw x | None -> "None")))
+         k_zc;
+       output_string oc "].\n";
+       output_string oc "Definition zc (b : bytes) : option bytes :=\n  match find (fun e => bytes_eqb (fst e) b) tab with Some e => snd e | None => None end.\n";
+       output_string oc "Definition ops : list wop :=\n  [";
+       output_string oc (String.concat ";\n   " (List.rev !k_ops));
+       output_string oc "].\n";
+       output_string oc "Eval vm_compute in (match run zc empty_world ops with Ok w => Some (world_digest w) | _ => None end).\n";
+       close_out oc;
+       Printf.printf "KERNEL-CASE %s %s %s\n" name !case_name
+         (String.concat " " (List.map string_of_n (world_digest !world)))
+   | _ -> ());
+  k_reset ()
+
 let first_diff (a : string) (b : string) : int =
   let n = min (String.length a) (String.length b) in
   let rec go i = if i < n && a.[i] = b.[i] then go (i + 1) else i in
@@ -455,6 +581,7 @@ let () =
        let line = read () in
        if String.length line = 0 || line.[0] = '#' then ()
        else if String.length line >= 5 && String.sub line 0 5 = "CASE " then begin
+         k_flush !skipping;
          case_name := String.sub line 5 (String.length line - 5);
          world := empty_world;
          skipping := false;
@@ -552,5 +679,6 @@ let () =
        end
      done
    with End_of_file -> ());
+  k_flush !skipping;
   Printf.printf "DONE cases=%d ops=%d mismatches=%d inconclusive=%d panics_agreed=%d monitor_checks=%d monitor_fails=%d\n"
     !n_cases !n_ops !n_mismatch !n_inconclusive !n_panics_agreed !Monitor.n_checks !n_monitor_fails
